@@ -336,6 +336,42 @@ def dummy(run):
                               f"after {how}(), {op}(pw, None) ran {calls1['verify'] - b1} verification(s) on the OLD default scheme and {calls2['verify'] - b2} on the new one", dict(w, how=how))
 
 
+def none_hash_entry_points(run):
+    """verify(pw, None) through every entry point and default-scheme kind: default schemes that need a context keyword
+    (user / realm), the deprecated scheme= argument, categories, the keyword given or not"""
+    from passlib.context import CryptContext
+    for default in ("postgres_md5", "oracle10", "msdcc", "msdcc2", "htdigest", "cisco_pix", "cisco_asa", "lmhash", "md5_crypt", "ldap_md5", "plaintext"):
+        for extra in ([], ["md5_crypt"], ["unix_disabled"]):
+            schemes = [default] + [e for e in extra if e != default]
+            if default == "plaintext":
+                schemes = schemes[::-1] if len(schemes) > 1 else schemes
+            try:
+                ctx = CryptContext(schemes=schemes, default=default, admin__context__default=schemes[-1])
+            except Exception as e:
+                run.violation(f"C18|none-hash|context-refused|{type(e).__name__}", f"context {schemes} refused: {e}", dict(schemes=schemes))
+                continue
+            ck = sorted(ctx.context_kwds)
+            variants = [("plain", {}), ("category", dict(category="admin")), ("unknown-category", dict(category="nosuch"))]
+            if "user" in ck:
+                variants += [("user-keyword", dict(user="someone")), ("user-and-category", dict(user="someone", category="admin"))]
+            if "realm" in ck:
+                variants.append(("user-and-realm", dict(user="someone", realm="r")))
+            variants.append(("deprecated-scheme-argument", dict(scheme=default)))
+            for label, kw in variants:
+                for op in ("verify", "verify_and_update"):
+                    w = dict(schemes=schemes, default=default, operation=op, arguments=kw)
+                    try:
+                        r = ctx.verify("pw", None, **kw) if op == "verify" else ctx.verify_and_update("pw", None, **kw)
+                    except Exception as e:
+                        run.violation(f"C18|none-hash|{default}|{label}|{op}-raises|{type(e).__name__}", f"{op}('pw', None, {kw}) with default scheme {default} raised {type(e).__name__}: {str(e)[:80]}", w,
+                                      repro=f"from passlib.context import CryptContext\nc=CryptContext({schemes!r}, default={default!r})\nprint(c.{op}('pw', None, **{kw!r}))")
+                        continue
+                    run.count("none_hash_entry_points")
+                    run.case(("none-hash-entry", default, label, op), dict(w, result=str(r)))
+                    if r not in (False, (False, None)):
+                        run.violation(f"C18|none-hash|{default}|{label}|{op}-not-false", f"{op}('pw', None, {kw}) returned {r!r}", w)
+
+
 def long_originals(run):
     """an original hash longer than the library-wide password size limit is still just a hash: it can be disabled, stays
     disabled, and (unix_disabled) comes back intact"""
@@ -400,6 +436,8 @@ def body(run):
     dummy(run)
     cross_marker(run)
     long_originals(run)
+    none_hash_entry_points(run)
+    run.require("none_hash_entry_points", 200)
     # the same with a lowered library-wide size limit (environment switch read at import): ordinary hashes are then "long"
     run.parallel("checks.c18", "long_originals", [dict()], timeout=600, env={"PASSLIB_MAX_PASSWORD_SIZE": "64"})
     run.parallel("checks.c18", "histories", [dict(disabled=d, marker="!", part=0, parts=8) for d in ("unix_disabled", "django_disabled")], timeout=900, env={"PASSLIB_MAX_PASSWORD_SIZE": "64"})
